@@ -186,6 +186,19 @@ pub struct Agg {
 /// Runs `[from, to)` split over `workers` child processes and aggregates their reports.
 pub fn run_batch(prop: &str, seed: u64, from: u64, to: u64, workers: u64, hashes: bool) -> Result<Agg, String> {
     let exe = std::env::current_exe().map_err(|e| e.to_string())?;
+    run_batch_exe(&exe, prop, seed, from, to, workers, hashes)
+}
+
+/// Same, with the worker binary given (the release-arithmetic build for the second slice).
+pub fn run_batch_exe(
+    exe: &std::path::Path,
+    prop: &str,
+    seed: u64,
+    from: u64,
+    to: u64,
+    workers: u64,
+    hashes: bool,
+) -> Result<Agg, String> {
     let n = to - from;
     let workers = workers.max(1).min(n.max(1));
     let chunk = (n + workers - 1) / workers;
@@ -196,7 +209,7 @@ pub fn run_batch(prop: &str, seed: u64, from: u64, to: u64, workers: u64, hashes
         if a >= b {
             continue;
         }
-        let mut cmd = Command::new(&exe);
+        let mut cmd = Command::new(exe);
         cmd.arg("worker")
             .arg("--prop")
             .arg(prop)
@@ -371,29 +384,7 @@ pub fn run_batch(prop: &str, seed: u64, from: u64, to: u64, workers: u64, hashes
     let mut total = Agg::default();
     for h in handles {
         let a = h.join().map_err(|_| "reader thread panicked".to_string())?;
-        for (k, v) in a.stats {
-            *total.stats.entry(k).or_insert(0) += v;
-        }
-        total.steps += a.steps;
-        total.nontrivial += a.nontrivial;
-        total.rejected += a.rejected;
-        total.distinct.extend(a.distinct);
-        for (k, v) in a.known_hits {
-            *total.known_hits.entry(k).or_insert(0) += v;
-        }
-        total.other_prop += a.other_prop;
-        total.unclaimed += a.unclaimed;
-        total.violations.extend(a.violations);
-        total.violation_count += a.violation_count;
-        total.violation_runs.extend(a.violation_runs);
-        for (k, v) in a.violation_sigs {
-            *total.violation_sigs.entry(k).or_insert(0) += v;
-        }
-        total.samples.extend(a.samples);
-        total.hashes.extend(a.hashes);
-        total.deaths.extend(a.deaths);
-        total.rejects.extend(a.rejects);
-        total.executed += a.executed;
+        merge(&mut total, a);
     }
     Ok(total)
 }
@@ -443,6 +434,32 @@ fn hang_secs() -> u64 {
     std::env::var("DNSSIM_HANG_SECS").ok().and_then(|s| s.parse().ok()).unwrap_or(90)
 }
 
+pub fn merge(total: &mut Agg, a: Agg) {
+    for (k, v) in a.stats {
+        *total.stats.entry(k).or_insert(0) += v;
+    }
+    total.steps += a.steps;
+    total.nontrivial += a.nontrivial;
+    total.rejected += a.rejected;
+    total.distinct.extend(a.distinct);
+    for (k, v) in a.known_hits {
+        *total.known_hits.entry(k).or_insert(0) += v;
+    }
+    total.other_prop += a.other_prop;
+    total.unclaimed += a.unclaimed;
+    total.violations.extend(a.violations);
+    total.violation_count += a.violation_count;
+    total.violation_runs.extend(a.violation_runs);
+    for (k, v) in a.violation_sigs {
+        *total.violation_sigs.entry(k).or_insert(0) += v;
+    }
+    total.samples.extend(a.samples);
+    total.hashes.extend(a.hashes);
+    total.deaths.extend(a.deaths);
+    total.rejects.extend(a.rejects);
+    total.executed += a.executed;
+}
+
 pub fn ncpu() -> u64 {
     std::env::var("DNSSIM_WORKERS")
         .ok()
@@ -468,6 +485,7 @@ fn write_replay(prop: &str, v: &Value, minimised: Option<&Value>, candidates: us
         "scenario": minimised.unwrap_or(&v["scenario"]),
         "original_scenario": v["scenario"],
         "minimiser_candidates": candidates,
+        "build": v.get("build").cloned().unwrap_or(json!("checked")),
         "replay": format!("./check {} --replay {}", prop, path),
     });
     std::fs::write(&path, serde_json::to_string_pretty(&doc).unwrap()).map_err(|e| e.to_string())?;
@@ -561,6 +579,22 @@ pub fn cmd_replay(path: &str, verbose: bool) -> i32 {
     let prop = doc["property"].as_str().unwrap_or("").to_string();
     let lane = doc["lane"].as_str().unwrap_or("N").to_string();
     let sig = doc["signature"].as_str().unwrap_or("").to_string();
+    if doc["build"].as_str() == Some("relarith") && std::env::var("DNSSIM_IS_RELARITH").is_err() {
+        // found by the release-arithmetic build: replay with that build
+        if let Ok(bin) = std::env::var("DNSSIM_RELARITH_BIN") {
+            if std::path::Path::new(&bin).exists() && std::env::current_exe().map(|e| e != std::path::Path::new(&bin)).unwrap_or(true) {
+                let st = Command::new(&bin)
+                    .arg("replay")
+                    .arg(path)
+                    .env("DNSSIM_IS_RELARITH", "1")
+                    .status();
+                return match st {
+                    Ok(s) => s.code().unwrap_or(3),
+                    Err(_) => 2,
+                };
+            }
+        }
+    }
     match replay_value(&prop, &lane, &doc["scenario"], verbose) {
         Ok(Some(v)) if v.signature() == sig && v.has(&prop) => {
             println!("reproduced: {}", v.detail);
@@ -632,13 +666,35 @@ pub fn cmd_check(prop: &str, tier: &str, seed: u64) -> i32 {
     // history-dependent (what C17 forbids) the exploration will say so with a replayable case,
     // and that verdict must not be masked by a harness-error exit.
     // ---- exploration
-    let agg = match run_batch(prop, seed, 0, runs, workers, false) {
+    // Two slices: most runs with arithmetic and debug assertions checked (as `cargo test` builds
+    // the library), the last fifth with the release-arithmetic build (wrapping arithmetic, no
+    // debug assertions: what ships), when that binary has been built. Which build a run uses is
+    // a function of its index only.
+    let relarith: Option<std::path::PathBuf> = std::env::var("DNSSIM_RELARITH_BIN")
+        .ok()
+        .map(std::path::PathBuf::from)
+        .filter(|p| p.exists() && matches!(prop, "C08" | "C09" | "C10" | "C11" | "C15"));
+    let n1 = if relarith.is_some() { runs - runs / 5 } else { runs };
+    let mut agg = match run_batch(prop, seed, 0, n1, workers, false) {
         Ok(a) => a,
         Err(e) => {
             eprintln!("harness error: {}", e);
             return 2;
         }
     };
+    let mut relarith_runs = 0u64;
+    if let Some(exe) = &relarith {
+        match run_batch_exe(exe, prop, seed, n1, runs, workers, false) {
+            Ok(a) => {
+                relarith_runs = a.executed;
+                merge(&mut agg, a);
+            }
+            Err(e) => {
+                eprintln!("harness error: {}", e);
+                return 2;
+            }
+        }
+    }
     let wall_explore = t0.elapsed().as_secs_f64();
     let mut exit = 0;
     let mut violations_reported = 0u64;
@@ -697,12 +753,23 @@ pub fn cmd_check(prop: &str, tier: &str, seed: u64) -> i32 {
     if !all_v.is_empty() {
         all_v.sort_by_key(|v| v["run"].as_u64().unwrap_or(u64::MAX));
         // prefer the shortest scenario among the first few
-        let pick = all_v
+        let mut pick = all_v
             .iter()
             .take(12)
             .min_by_key(|v| v["scenario"].to_string().len())
             .unwrap()
             .clone();
+        let pick_relarith = relarith.is_some()
+            && pick["run"].as_u64().unwrap_or(0) >= n1
+            && matches!(pick["lane"].as_str(), Some("N") | Some("C"));
+        if pick_relarith {
+            pick["build"] = json!("relarith");
+        }
+        let tool_exe: std::path::PathBuf = if pick_relarith {
+            relarith.clone().unwrap()
+        } else {
+            std::env::current_exe().unwrap()
+        };
         violations_reported = agg.violation_count.max(all_v.len() as u64);
         // minimise in a child process
         let tmp_in = format!("{}/replays/.min-in-{}.json", root(), std::process::id());
@@ -712,7 +779,7 @@ pub fn cmd_check(prop: &str, tier: &str, seed: u64) -> i32 {
         let mut minimised: Option<Value> = None;
         let mut cands = 0usize;
         if std::fs::write(&tmp_in, min_doc.to_string()).is_ok() {
-            let st = Command::new(std::env::current_exe().unwrap())
+            let st = Command::new(&tool_exe)
                 .arg("minimise")
                 .arg(&tmp_in)
                 .arg(&tmp_out)
@@ -733,7 +800,7 @@ pub fn cmd_check(prop: &str, tier: &str, seed: u64) -> i32 {
         match write_replay(prop, &pick, minimised.as_ref(), cands) {
             Ok(path) => {
                 // the minimised file must reproduce in a fresh process
-                let st = Command::new(std::env::current_exe().unwrap())
+                let st = Command::new(&tool_exe)
                     .arg("replay")
                     .arg(&path)
                     .stdout(Stdio::piped())
@@ -756,7 +823,7 @@ pub fn cmd_check(prop: &str, tier: &str, seed: u64) -> i32 {
                     // fall back to the unminimised scenario
                     match write_replay(prop, &pick, None, 0) {
                         Ok(path2) => {
-                            let st2 = Command::new(std::env::current_exe().unwrap())
+                            let st2 = Command::new(&tool_exe)
                                 .arg("replay")
                                 .arg(&path2)
                                 .stdout(Stdio::null())
@@ -957,6 +1024,7 @@ pub fn cmd_check(prop: &str, tier: &str, seed: u64) -> i32 {
             "simulated_time": "none: the system has no clock or timer; logical steps (API calls judged by the oracles) stand in",
             "runs_per_hour": if wall_explore > 0.0 { (agg.executed as f64 / wall_explore * 3600.0) as u64 } else { 0 },
             "workers": workers,
+            "runs_with_release_arithmetic_build": relarith_runs,
             "fault_kinds": faults,
             "fault_kinds_absent_in_system": ["network loss/duplication/reordering", "partition", "crash/restart", "clock skew", "disk error / torn write", "allocation failure (aborts, nothing to recover)"],
             "errors_returned_by_library": errors,
